@@ -58,6 +58,12 @@ def one(rec, label, design, spice):
     if o.status != "ok":
         rec.violation(classify(design, o), f"[{label}] exported circuit differs from the design: " + "; ".join(o.diffs[:3]),
                       case={"label": label, "design": design}, **flags(design))
+    if "anon" in feats and "anon_order" not in design and rec.evaluations % 2 == 0:
+        # the same design with the members of every anonymous bundle written in the opposite order
+        d2 = copy.deepcopy(design)
+        d2["anon_order"] = "reversed"
+        rec.count("driver.anon-members-reversed")
+        one(rec, label + " (anonymous-bundle members written in reverse order)", d2, False)
     return o
 
 
